@@ -149,6 +149,26 @@ def moveFrom (b i : Nat) : M Nat := fun h =>
     | .raw => .error (.pre "move from a raw slot")
     | .moved => .error (.pre "move from a moved-from slot")
 
+/-- `std::move(x)` of an object that may itself be moved-from (legal C++: the result is again an object with an
+    unspecified value, which must never be `read`): returns the state that the destination receives. -/
+def moveFromAny (b i : Nat) : M Slot := fun h =>
+  match h.cell? b i with
+  | none => .error (.pre "move: no such cell")
+  | some c =>
+    match c.st with
+    | .raw => .error (.pre "move from a raw slot")
+    | s => .ok (s, h.setCell b i { c with st := .moved })
+
+/-- placement-new from a transferred state (`live v` or `moved`) into a raw cell. -/
+def constructSt (b i : Nat) (s : Slot) : M Unit := fun h =>
+  match h.cell? b i with
+  | none => .error (.pre "construct: no such cell")
+  | some c =>
+    match c.st with
+    | .raw => if s = .raw then .error (.pre "construct from nothing") else
+              .ok ((), (h.setCell b i { c with st := s }).addLog (.ctor b ((h.kind? b).getD .item)))
+    | _ => .error (.pre "construct over a non-raw slot")
+
 /-- assignment to an existing object (live or moved-from). -/
 def assign (b i v : Nat) : M Unit := fun h =>
   match h.cell? b i with
